@@ -37,14 +37,15 @@ def _settings(Config):
 
 
 def expected(Config, d):
-    """what a settings dictionary means: vars() of the resulting object"""
+    """what a settings dictionary means, setting by setting as read back from the resulting object
+    (public names: however the class stores them)"""
     exp = {}
     for k, v in d.items():
         if k in _PROPS:
             if k == "root_path":
-                exp["_root_path"] = v.rstrip("/")
+                exp[k] = v.rstrip("/")
             else:
-                exp[_PROPS[k]] = [v] if isinstance(v, str) else v
+                exp[k] = [v] if isinstance(v, str) else v
         elif k in ("log", "ssl_enabled", "cert_reqs"):
             continue  # read-only / write-only properties: not settings of this enumeration
         else:
@@ -53,7 +54,10 @@ def expected(Config, d):
 
 
 def observed(cfg):
-    return dict(vars(cfg))
+    out = {k: v for k, v in vars(cfg).items() if k not in _PROPS.values()}
+    for k in _PROPS:
+        out[k] = getattr(cfg, k)
+    return out
 
 
 class QuietLogger:  # a class-valued (callable) setting: logger_class
@@ -121,7 +125,7 @@ def _py_ok(d):
     return all(k.isidentifier() for k in d)
 
 
-def run(tier="quick", seed=0):
+def run(tier="quick", seed=0, only=None, obligation="C19.loaders"):
     from pyvc.source import ensure_repo_on_path
 
     ensure_repo_on_path()
@@ -134,6 +138,8 @@ def run(tier="quick", seed=0):
     n = 0
     try:
         for idx, d in enumerate(cases(Config, tier, seed)):
+            if only is not None and not (set(d) & set(only)):
+                continue
             # what the dictionary means; names that are no settings and private / dunder names are
             # compared across sources only where every source can carry them
             want = expected(Config, d)
@@ -180,7 +186,7 @@ def run(tier="quick", seed=0):
                 try:
                     got = observed(mk())
                 except Exception as e:
-                    violations.append({"obligation": "C19.loaders", "input": f"{name}: {d!r}", "expected": "a Config", "observed": f"raised {type(e).__name__}: {e}"})
+                    violations.append({"obligation": obligation, "input": f"{name}: {d!r}", "expected": "a Config", "observed": f"raised {type(e).__name__}: {e}"})
                     continue
                 # the settings named: exactly the given values
                 def same(g, v):
@@ -188,11 +194,11 @@ def run(tier="quick", seed=0):
                         return isinstance(g, type) and g.__name__ == "QuietLogger"
                     return g is v or g == v
 
-                bad = {k: (got.get(k, "<unset>"), v) for k, v in want.items() if (k in vars(Config) or k in _PROPS.values()) and not same(got.get(k, "<unset>"), v)}
+                bad = {k: (got.get(k, "<unset>"), v) for k, v in want.items() if (k in vars(Config) or k in _PROPS) and not same(got.get(k, "<unset>"), v)}
                 # every other attribute: as in a default configuration (nothing else is touched)
-                extra = {k: v for k, v in got.items() if k not in want and (k not in base or base[k] != v) and k in vars(Config)}
+                extra = {k: v for k, v in got.items() if k not in want and (k not in base or base[k] != v) and (k in vars(Config) or k in _PROPS)}
                 if bad or extra:
-                    violations.append({"obligation": "C19.loaders", "input": f"{name}: {d!r}", "expected": repr({k: v for k, v in want.items() if k in bad} or "nothing else set"),
+                    violations.append({"obligation": obligation, "input": f"{name}: {d!r}", "expected": repr({k: v for k, v in want.items() if k in bad} or "nothing else set"),
                                        "observed": repr({k: b[0] for k, b in bad.items()} or extra)})
     finally:
         sys.path.remove(tmp)
